@@ -66,6 +66,10 @@ Calibration
   comparisons have been made by then.
 * `dd.from_pandas(frame with a CategoricalIndex whose categories are not in lexical order, npartitions >= 3)` does not return
   (`sorted_division_locations`, findings_proposed/C13.md): frames with a CategoricalIndex are cut into one partition.
+* MultiIndex columns are generated with unique labels only: with a duplicated tuple label `x[label]` computes to a frame of
+  another shape than pandas gives even alone, and next to `x.reset_index()` the column-projection union cannot be sorted
+  (`_sort_mixed`, thorough seed 0: together:dataframe:multiindex:UFuncTypeError@...:_sort_mixed); duplicated column labels are
+  outside dask.dataframe's domain.
 * map_blocks functions declare the dtype they really return (a wrong `dtype=` makes `da.concatenate` cast the blocks, which is
   not a collision); `map_overlap(trim=False)` (chunks metadata no longer describe the blocks) is not generated.
 * Equal values with another dtype are different results (the statement says "the same value"; dtype and element types
